@@ -54,8 +54,9 @@ SetKey(k, v) == obj' = [obj EXCEPT !.items = MPut(@, k, v)] /\ UNCHANGED disk
 DelKey(k, res) == /\ IF MHas(obj.items, k) THEN res = "ok" /\ obj' = [obj EXCEPT !.items = MDel(@, k)]
                      ELSE res = "KeyError" /\ UNCHANGED obj
                   /\ UNCHANGED disk
+AttrValue(o, name) == LET k == Sel(o.fmt, o.items, name) IN IF MHas(o.items, k) THEN MGet(o.items, k) ELSE None
 GetAttr(name, res) ==      \* res: the value read (None when neither spelling is present)
-  /\ res = (LET k == Sel(obj.fmt, obj.items, name) IN IF MHas(obj.items, k) THEN MGet(obj.items, k) ELSE None)
+  /\ res = AttrValue(obj, name)
   /\ UNCHANGED svars
 SetAttr(name, v) == obj' = [obj EXCEPT !.items = MPut(@, Sel(obj.fmt, obj.items, name), v)] /\ UNCHANGED disk
 DelAttr(name, res) ==
@@ -161,13 +162,15 @@ AsStream(ns) == [i \in DOMAIN ns |-> [n |-> ns[i].n, d |-> ns[i].d, c |-> ns[i].
 CountInDomain(o, j) ==          \* Grouping.tla speaks about single-player streams
   /\ j \in DOMAIN o.charts /\ (o.fmt = "ssc" => ChartHasNotes(o.charts[j]))
   /\ \A i \in DOMAIN Decode(ChartNotesText(o, j)) : Decode(ChartNotesText(o, j))[i].p = 0
+CountsOf(o, j) == LET ns == AsStream(Decode(ChartNotesText(o, j))) IN
+                  [steps |-> GR!CountSteps(ns, GR!DefaultCountTypes, "all", 1),
+                   jumps |-> GR!CountSteps(ns, GR!DefaultCountTypes, "all", 2),
+                   hands |-> GR!CountSteps(ns, GR!DefaultCountTypes, "all", 3),
+                   mines |-> GR!CountMines(ns)]
 CountNotes(j, res) ==
   /\ CountInDomain(obj, j)
-  /\ LET dn == Decode(ChartNotesText(obj, j))  ns == AsStream(dn) IN
-     /\ res.steps = GR!CountSteps(ns, GR!DefaultCountTypes, "all", 1)
-     /\ res.jumps = GR!CountSteps(ns, GR!DefaultCountTypes, "all", 2)
-     /\ res.hands = GR!CountSteps(ns, GR!DefaultCountTypes, "all", 3)
-     /\ res.mines = GR!CountMines(ns)
+  /\ LET c == CountsOf(obj, j) IN
+     res.steps = c.steps /\ res.jumps = c.jumps /\ res.hands = c.hands /\ res.mines = c.mines
   /\ UNCHANGED svars
 K_BPMS == <<66, 80, 77, 83>>
 K_DELAYS == <<68, 69, 76, 65, 89, 83>>
